@@ -275,41 +275,89 @@ def startsAtPattern (pat : Nat) (ords : Bytes) : Bool :=
   | o :: _ => o.toNat < pat
   | [] => false
 
+/-- the order list reaches a pattern before any end-of-song marker (0xff); 0xfe entries are skipped.
+(Kept for reference: the precise rule of the loader is `scanStarts` below.) -/
+def playable (ords : Bytes) : Bool :=
+  match ords.dropWhile (· == 0xfe) with
+  | o :: _ => o.toNat < 0xfe
+  | [] => false
+
+/-- `scan_module` from order 0 (S3M / IT: `QUIRK_MARKER`): entries that name no stored pattern (skip markers
+0xfe included) are skipped, the end marker 0xff stops the scan; does the scan reach a stored pattern? -/
+def startsValid (pat : Nat) (ords : Bytes) : Bool :=
+  match ords.dropWhile (fun o => decide (o.toNat ≥ pat ∧ o.toNat ≠ 0xff)) with
+  | o :: _ => decide (o.toNat < pat)
+  | [] => false
+
+/-- `libxmp_prepare_scan` + `libxmp_scan_sequences`: the load fails ("no valid orders") when the scan from order 0
+ends without having played a row — unless no entry at all names a stored pattern: then the order list has been
+emptied before and nothing is scanned. -/
+def scanStarts (pat : Nat) (ords : Bytes) : Bool :=
+  ords.all (fun o => decide (o.toNat ≥ pat)) || startsValid pat ords
+
 def chnCount (chset : Bytes) : Nat :=
   (chset.zipIdx.foldl (fun (m : Nat) (c, i) => if c ≠ 0xff then i + 1 else m) 0)
 
 def isEmptyPat (p : Pat) : Bool := p.cells.all fun c => c.note = 0 && c.ins = 0 && c.vol = 0
 
-def write (s : Module) (o : Opts) : Bytes :=
-  let nord := s.orders.length
-  let nins := s.ins.length
-  let npat := s.pats.length
+/-! ### layout of the written file
+
+`head` (96-byte header, order list, parapointer tables, optional pan table; padded to a paragraph) ·
+80-byte instrument headers · pattern blobs · sample blobs.  Every blob is padded to a multiple of 16
+bytes, so every part starts on a paragraph boundary. -/
+
+/-- one stored pattern: length word + packed data, padded; `[]` = not stored (parapointer 0);
+`ci` = global index of the pattern's first cell (for the per-cell option streams) -/
+def patBlob (chn : Nat) (o : Opts) (p : Pat) (ci : Nat) : Bytes :=
+  if o.nullEmpty && isEmptyPat p then [] else
+    let d := pack chn p o.force o.fx ci
+    pad16 (le16 (d.length + 2) ++ d)
+
+def patBlobs (chn : Nat) (o : Opts) : List Pat → Nat → List Bytes
+  | [], _ => []
+  | p :: ps, ci => patBlob chn o p ci :: patBlobs chn o ps (ci + p.cells.length)
+
+def smpBlob (o : Opts) (m : Smp) : Bytes := pad16 (storePcm (o.ffi ≠ 1) m.flg m.len m.pcm)
+
+/-- paragraph numbers of consecutive blobs starting at paragraph `base` -/
+def parasOf (base : Nat) : List Bytes → List Nat
+  | [] => []
+  | b :: bs => base :: parasOf (base + b.length / 16) bs
+
+/-- the same for patterns: an empty blob (pattern not stored) gets parapointer 0 -/
+def patParasOf (base : Nat) : List Bytes → List Nat
+  | [] => []
+  | b :: bs => (if b.isEmpty then 0 else base) :: patParasOf (base + b.length / 16) bs
+
+def panBytes (o : Opts) : Bytes := match o.pan with | some p => padTo 32 p | none => []
+
+/-- first paragraph after the header tables -/
+def basePara (s : Module) (o : Opts) : Nat :=
+  (96 + s.orders.length + 2 * s.ins.length + 2 * s.pats.length + (panBytes o).length + 15) / 16
+
+def patBase (s : Module) (o : Opts) : Nat := basePara s o + 5 * s.ins.length
+def smpBase (s : Module) (o : Opts) : Nat := patBase s o + ((patBlobs s.chn o s.pats 0).map (·.length / 16)).sum
+
+def patParas (s : Module) (o : Opts) : List Nat := patParasOf (patBase s o) (patBlobs s.chn o s.pats 0)
+def smpParas (s : Module) (o : Opts) : List Nat := parasOf (smpBase s o) (s.smps.map (smpBlob o))
+
+/-- the 80-byte headers of the slots `(x, m)` whose PCM lies at paragraph `seg`; `i` = slot number -/
+def encSmpHdrs (o : Opts) : List Ins → List Smp → List Nat → Nat → Bytes
+  | x :: xs, m :: ms, seg :: segs, i =>
+    encSmpHdr x m (if m.len = 0 then 0 else seg) (o.c2spd i) ++ encSmpHdrs o xs ms segs (i + 1)
+  | _, _, _, _ => []
+
+def fileHdr (s : Module) (o : Opts) : Bytes :=
   let chset : Bytes := (List.range 32).map fun k => if k < s.chn then o.chset k else 0xff
-  let hdr : Bytes :=
-    padTo 28 s.name ++ [0x1a, 16, 0, 0] ++ le16 nord ++ le16 nins ++ le16 npat ++ le16 o.flags ++ le16 o.cwt ++
+  padTo 28 s.name ++ [0x1a, 16, 0, 0] ++ le16 s.orders.length ++ le16 s.ins.length ++ le16 s.pats.length ++
+    le16 o.flags ++ le16 o.cwt ++
     le16 o.ffi ++ str "SCRM" ++ [o.gv, u8 s.spd, u8 s.bpm, o.mv, 0, (if o.pan.isSome then 0xfc else 0)] ++
     List.replicate 8 0 ++ [0, 0] ++ chset
-  let panb : Bytes := match o.pan with | some p => padTo 32 p | none => []
-  let fixed := 96 + nord + 2 * nins + 2 * npat + panb.length
-  let base := (fixed + 15) / 16          -- first paragraph after the tables
-  let insPara := fun (i : Nat) => base + 5 * i
-  -- patterns
-  let cellIdx : List Nat := (s.pats.foldl (fun (acc : List Nat × Nat) p => (acc.1 ++ [acc.2], acc.2 + p.cells.length)) ([], 0)).1
-  let patBlobs : List Bytes := (s.pats.zip cellIdx).map fun (p, ci) =>
-    if o.nullEmpty && isEmptyPat p then [] else
-      let d := pack s.chn p o.force o.fx ci
-      pad16 (le16 (d.length + 2) ++ d)
-  let patBase := base + 5 * nins
-  let patParas : List Nat := (patBlobs.foldl (fun (acc : List Nat × Nat) b =>
-    (acc.1 ++ [if b.isEmpty then 0 else acc.2], acc.2 + b.length / 16)) ([], patBase)).1
-  let smpBase := patBase + (patBlobs.map (·.length / 16)).sum
-  let smpBlobs : List Bytes := s.smps.map fun m => pad16 (storePcm (o.ffi ≠ 1) m.flg m.len m.pcm)
-  let smpParas : List Nat := (smpBlobs.foldl (fun (acc : List Nat × Nat) b => (acc.1 ++ [acc.2], acc.2 + b.length / 16)) ([], smpBase)).1
-  let insHdrs : Bytes := ((s.ins.zip s.smps).zip (smpParas.zipIdx)).flatMap fun ((x, m), (seg, i)) =>
-    encSmpHdr x m (if m.len = 0 then 0 else seg) (o.c2spd i)
-  pad16 (hdr ++ s.orders ++ (List.range nins).flatMap (fun i => le16 (insPara i)) ++
-         patParas.flatMap le16 ++ panb) ++
-  insHdrs ++ patBlobs.flatten ++ smpBlobs.flatten
+
+def write (s : Module) (o : Opts) : Bytes :=
+  pad16 (fileHdr s o ++ s.orders ++ (List.range s.ins.length).flatMap (fun i => le16 (basePara s o + 5 * i)) ++
+         (patParas s o).flatMap le16 ++ panBytes o) ++
+  encSmpHdrs o s.ins s.smps (smpParas s o) 0 ++ (patBlobs s.chn o s.pats 0).flatten ++ (s.smps.map (smpBlob o)).flatten
 
 def readIns (file : Bytes) (unsigned : Bool) : List Nat → Nat → Option (List (Ins × Smp))
   | [], _ => some []
@@ -342,8 +390,8 @@ def read (bs : Bytes) : Option Module := do
   let (ords, r) ← takeN ordnum (bs.drop 96)
   let pat := patCount ords patnum
   if pat = 0 then none
-  -- `libxmp_scan_sequences` refuses a song whose first real order entry is not a stored pattern
-  if !(startsAtPattern pat ords) then none
+  -- `libxmp_scan_sequences`: the scan from order 0 must reach a stored pattern before an end marker
+  if !(scanStarts pat ords) then none
   let (ib, r) ← takeN (2 * insnum) r
   let (pb, _) ← takeN (2 * patnum) r
   let ppIns := decodeN 2 rd16le insnum ib
@@ -392,21 +440,16 @@ instance : (i : Nat) → (xs : List Ins) → (ms : List Smp) → Decidable (Slot
   | _, [], _ :: _ => isFalse (by simp [SlotsOk])
   | _, _ :: _, [] => isFalse (by simp [SlotsOk])
 
-/-- the order list reaches a pattern before any end-of-song marker (0xff); 0xfe entries are skipped.
-A song that starts with the end marker has no playable position and `libxmp_scan_sequences` refuses it. -/
-def playable (ords : Bytes) : Bool :=
-  match ords.dropWhile (· == 0xfe) with
-  | o :: _ => o.toNat < 0xfe
-  | [] => false
-
 /-- Well-formed S3M song + writer options -/
 def WellFormed (s : Module) (o : Opts) : Prop :=
-  NameOk 28 s.name ∧ playable s.orders = true ∧ (1 ≤ s.chn ∧ s.chn ≤ 32) ∧ (o.ffi = 1 ∨ o.ffi = 2) ∧
+  NameOk 28 s.name ∧ startsValid s.pats.length s.orders = true ∧ (1 ≤ s.chn ∧ s.chn ≤ 32) ∧ (o.ffi = 1 ∨ o.ffi = 2) ∧
   (∀ k ∈ List.range s.chn, o.chset k ≠ 0xff) ∧ s.orders.length ≤ 255 ∧ s.ins.length ≤ 255 ∧
   (1 ≤ s.pats.length ∧ patCount s.orders s.pats.length = s.pats.length) ∧
   (∀ p ∈ s.pats, PatOk s.chn p) ∧ SlotsOk 0 s.ins s.smps ∧
   (1 ≤ s.spd ∧ s.spd ≤ 255) ∧ (20 ≤ s.bpm ∧ s.bpm ≤ 255) ∧
-  (match o.pan with | some p => p.length = 32 | none => True)
+  (match o.pan with | some p => p.length = 32 | none => True) ∧
+  -- the format's pointer widths: 16-bit pattern parapointers, 24-bit sample paragraphs
+  (∀ pp ∈ patParas s o, pp < 0x10000) ∧ (∀ seg ∈ smpParas s o, seg < 0x1000000)
 
 instance (s : Module) (o : Opts) : Decidable (WellFormed s o) := by
   unfold WellFormed
